@@ -2,7 +2,7 @@
 (* C25 — Record -> Validate of the security estimates and of AcceptableOptions::validate.
 
    Each event of the ndjson trace (environment variable TRACE) is what the real code returned for one
-   grid CELL (blowup b, field bits fb, collision resistance cr, trace length 2^ll, constraint count nc,
+   grid CELL (blowup b, base field encoding fld / src / mod = the announced modulus bytes, collision resistance cr, trace length 2^ll, constraint count nc,
    trace width w, FRI folding / remainder degree, the two batching methods):
        gs              the grinding factors of the table (increasing)
        conj, ldr, udr  tables [e in 1..3][index into gs][queries 1..nq] of
@@ -10,7 +10,11 @@
        dec             decisions: {k: "conj"|"proven", e, gi, qi, m, al, ok} =
                        is_at_least(m) and AcceptableOptions::Min*Security(m).validate(proof).is_ok()
                        for the options of table entry (e, gi, qi)
+       mod             Context::field_modulus_bytes() of the context the estimates were computed on
        panic           present when a call did not return (never accepted)
+   The field size is NOT taken from the code: FB(ev) is the bit length of the modulus VALUE
+   (Security!BitLen of the announced bytes), so an estimate that measures the encoding instead of the
+   number is rejected by "conjectured < extension field bits".
    The specification knows nothing about the formulas (the proven estimate is floating point); it
    states the property: bounds, monotonicity along queries / grinding / extension degree, and the
    decision rules `Meets` of Security.tla applied to the recorded estimates.  Every clause yields the
@@ -36,7 +40,8 @@ GsIncreasing(ev) == \A i \in 1..(NG(ev) - 1) : ev.gs[i] < ev.gs[i + 1]
 
 \* positions contradicting each clause of the property
 BadConjCR(ev)    == {p \in Idx(ev) : At(ev.conj, p) > ev.cell.cr}
-BadConjField(ev) == {p \in Idx(ev) : At(ev.conj, p) >= ev.cell.fb * p[1]}
+FB(ev) == BitLen(ev.cell.mod)
+BadConjField(ev) == {p \in Idx(ev) : At(ev.conj, p) >= FB(ev) * p[1]}
 BadLdrCR(ev)     == {p \in Idx(ev) : At(ev.ldr, p) > ev.cell.cr}
 BadUdrCR(ev)     == {p \in Idx(ev) : At(ev.udr, p) > ev.cell.cr}
 BadMonoQ(ev, t)  == {p \in Idx(ev) : p[3] < ev.nq /\ At(t, p) > At(t, <<p[1], p[2], p[3] + 1>>)}
@@ -48,6 +53,9 @@ BadDec(ev) == {DecPos(ev.dec[i]) : i \in {j \in 1..Len(ev.dec) :
                      p == <<d.e, d.gi, d.qi>>
                      bits == IF d.k = "conj" THEN At(ev.conj, p) ELSE Proven(ev, p)
                  IN ~(d.k \in {"conj", "proven"} /\ d.al = Meets(bits, d.m) /\ d.ok = Meets(bits, d.m))}}
+\* a requested conjectured minimum at or above the extension field size is never accepted
+BadDecField(ev) == {DecPos(ev.dec[i]) : i \in {j \in 1..Len(ev.dec) :
+                      LET d == ev.dec[j] IN d.k = "conj" /\ d.m >= FB(ev) * d.e /\ (d.ok \/ d.al)}}
 
 Clauses(ev) ==
   << <<"conjectured <= collision resistance", BadConjCR(ev)>>,
@@ -63,9 +71,11 @@ Clauses(ev) ==
      <<"proven udr non-decreasing in queries", BadMonoQ(ev, ev.udr)>>,
      <<"proven udr non-decreasing in grinding", BadMonoG(ev, ev.udr)>>,
      <<"proven udr non-decreasing in extension degree", BadMonoE(ev, ev.udr)>>,
-     <<"is_at_least / validate decide by the computed bits", BadDec(ev)>> >>
+     <<"is_at_least / validate decide by the computed bits", BadDec(ev)>>,
+     <<"conjectured minimum >= extension field bits is never accepted", BadDecField(ev)>> >>
 
 WellFormed(ev) == /\ ~Has(ev, "panic")
+                  /\ ev.mod = ev.cell.mod /\ ev.cell.fbits = FB(ev)
                   /\ Shaped(ev, ev.conj) /\ Shaped(ev, ev.ldr) /\ Shaped(ev, ev.udr)
                   /\ GsIncreasing(ev) /\ Len(ev.dec) > 0
 
